@@ -72,6 +72,7 @@ type node struct {
 type callRec struct {
 	hashType int // -1 none, 0 mod-hash, 1 consistent-hash
 	code     uint32
+	oneway   bool
 	modList  []string // installed mod-hash list at call start
 	modCache []int    // its weighted cycle (indexes into modList), if any
 	conList  []string // hosts on the consistent-hash ring at call start
@@ -324,6 +325,8 @@ func (s *S) Run(c *scen.Ctx) {
 	// >= 2^31) among the plain ones
 	cancelMode := !s.hashMode && !s.mgrMode && simrt.Draw(4, "c15.cancelmode") == 3
 	someHash := !s.hashMode && !s.mgrMode && simrt.Draw(4, "c15.somehash") == 3
+	someOneWay := !s.hashMode && !s.mgrMode && simrt.Draw(4, "c15.someoneway") == 3
+	c.Describe("some_calls_one_way", someOneWay)
 	c.Describe("calls_cancelled_by_caller", cancelMode)
 	c.Describe("some_calls_hash_routed", someHash)
 	gaps := []int{50, 120, 400, 1000, 1900}
@@ -360,7 +363,11 @@ func (s *S) Run(c *scen.Ctx) {
 		var rsp requestf.ResponsePacket
 		cr.t0 = simrt.Elapsed()
 		cr.activeAt = s.activeNow()
-		err := s.prx.TarsInvoke(ctx, 0, "echo", payload, nil, nil, &rsp)
+		ctype := byte(0)
+		if someOneWay && simrt.Draw(4, "c15.oneway") == 3 {
+			ctype, cr.oneway = 1, true
+		}
+		err := s.prx.TarsInvoke(ctx, ctype, "echo", payload, nil, nil, &rsp)
 		cancelCall()
 		cr.t1 = simrt.Elapsed()
 		cr.activeT1 = s.activeNow()
@@ -574,7 +581,13 @@ func (s *S) Check(c *scen.Ctx, res *simrt.Result) {
 					c.Fail(s.propID(), "probe-too-often", "checkActive", "blocked endpoint %s was called at %v and again at %v (%v apart) while other endpoints were in rotation: more often than every 30s", n.host, lastProbe, cr.t0, cr.t0-lastProbe)
 				}
 				lastProbe = cr.t0
-				if cr.err == nil {
+				if cr.oneway {
+					// nothing comes back from a one-way call: it may use up the probe, it proves nothing
+					c.Count("probe.oneway_call_used_as_probe", 1)
+					if in, _ := inRotationDuring(n.host, cr.t1, cr.t1+time.Second); in && (n.modeAt(cr.t1) == "silent" || n.modeAt(cr.t1) == "late") && n.modeAt(cr.t1+time.Second) == n.modeAt(cr.t1) {
+						c.Fail(s.propID(), "reinstated-by-oneway-call", "doInvoke", "endpoint %s answers nothing (%s); the one-way call %d, sent to it as its probe at %v, put it back into rotation", n.host, n.modeAt(cr.t1), cr.k, cr.t0)
+					}
+				} else if cr.err == nil {
 					c.Count("probe.answered_probe", 1)
 					if cr.t1+check+time.Second < lastObs {
 						if in, _ := inRotationDuring(n.host, cr.t1, cr.t1+check+time.Second); !in {
@@ -641,12 +654,20 @@ func (s *S) Check(c *scen.Ctx, res *simrt.Result) {
 		c.Count("probe.recovery_window_checked", 1)
 		if in, _ := inRotationDuring(n.host, deadline, lastObs); !in {
 			calls := 0
+			wasted := false
 			for _, cr := range s.calls {
 				if cr.t0 >= healthyFrom && cr.t0 <= deadline {
 					calls++
+					// a one-way call that picked up this endpoint's probe used it up without proving anything
+					if cr.oneway && cr.host == n.host {
+						wasted = true
+					}
 				}
 			}
-			if calls >= 30 {
+			if wasted {
+				c.Count("probe.recovery_delayed_by_oneway_probe", 1)
+			}
+			if calls >= 30 && !wasted {
 				c.Fail(s.propID(), "never-reinstated", "checkStatus", "endpoint %s has been healthy since %v; %d calls were made in the following 75s and it still is not back in rotation at %v (it is not being probed)", n.host, healthyFrom, calls, lastObs)
 			}
 		}
